@@ -50,4 +50,24 @@ __CPROVER_ensures(g_n == __CPROVER_old(g_n) + size)
 __CPROVER_ensures(g_i == size)
 __CPROVER_assigns(g_h64, g_n, g_i);
 
+/* std::string overloads: the string is the pair (data(), size()) */
+typedef struct {
+  const char* data;
+  size_t size;
+} C10_str;
+
+uint32_t fnv1a32_str(const C10_str* data, uint32_t hash)
+__CPROVER_requires(__CPROVER_is_fresh(data, sizeof(C10_str)) && __CPROVER_is_fresh(data->data, data->size))
+__CPROVER_requires(g_h32 == hash)
+__CPROVER_ensures(__CPROVER_return_value == g_h32)
+__CPROVER_ensures(g_n == __CPROVER_old(g_n) + data->size && g_i == data->size)
+__CPROVER_assigns(g_h32, g_n, g_i);
+
+uint64_t fnv1a64_str(const C10_str* data, uint64_t hash)
+__CPROVER_requires(__CPROVER_is_fresh(data, sizeof(C10_str)) && __CPROVER_is_fresh(data->data, data->size))
+__CPROVER_requires(g_h64 == hash)
+__CPROVER_ensures(__CPROVER_return_value == g_h64)
+__CPROVER_ensures(g_n == __CPROVER_old(g_n) + data->size && g_i == data->size)
+__CPROVER_assigns(g_h64, g_n, g_i);
+
 #endif
